@@ -65,6 +65,7 @@ pub fn drive(a: &Args) -> i32 {
             request_timeout: Duration::from_secs(2),
             delay_max_ms: [0, 5, 50][rng.gen_range(0..3)],
             p_silent: if seg % 2 == 0 { 0.0 } else { rng.gen_range(0.0..0.4) },
+            conn_timeout_mult: 1,
         };
         let hub_rng = common::rng(3000 + seg);
         let mut events: Vec<Value> = Vec::new();
